@@ -316,6 +316,7 @@ func specLkAfter(kind, lk int) int {
 // looked up since, or nil (never the one into the mapping that may be gone).
 // (Stated before the quiescence assertion, which is a known finding: an assertion
 // is assumed once it has been checked, so the weaker one must come first.)
+//@   loop 1: invariant $touched && !$refreshed ==> c.ptr.count == nil
 //@   at call update#3: assert $touched ==> $refreshed || c.ptr.count == nil
 //@   at call update#3: assert $touched ==> $refreshed
 //@   modifies c.ptr, $ledger, $lost, $lk, $touched, $refreshed
